@@ -84,7 +84,7 @@ def rand_params(rng):
     return fmts, params, rf
 
 
-def make_scenarios(run, g, quick, make_reply):
+def make_scenarios(run, g, quick, make_reply, bad_frame=None):
     """extended-protocol request streams against a small set of statements, so that cache hits, misses and (size 1)
     evictions occur; batches the pooler answers entirely by itself are followed by ordinary ones.
     make_reply() -> list of frames the backend sends for an Execute (without ReadyForQuery)."""
@@ -154,21 +154,61 @@ def make_scenarios(run, g, quick, make_reply):
                 msgs.append({"t": "S"})
             ex.append({"msgs": msgs, "until": "Z", "count": nb, "timeout": 4000})
         scns.append({"kind": "cached-%d" % k, "cache": k, "ex": ex, "known": None})
+    # ErrorResponse / NoticeResponse with field values that are not valid UTF-8 (with caching on Server::recv parses every
+    # ErrorResponse): only reply / at the start / after rows, outside and inside a transaction, simple and extended, then
+    # further requests of the same and of another client on the one server connection
+    for i in range((12 if quick else 300) if bad_frame else 0):
+        k = rng.choice([1, 8])
+        ex, in_txn = [], rng.random() < 0.4
+
+        def one(c, body, j, st=b"I"):
+            sql = "/*mock: raw=%s*/ SELECT %d" % (b"".join(enc(f) for f in body).hex(), j)
+            if rng.random() < 0.5:
+                z = enc(("Z", st)).hex()
+                return {"c": c, "msgs": [{"t": "Q", "sql": sql.replace("*/", z + "*/", 1)}], "until": "Z", "count": 1, "timeout": 4000}
+            name = rng.choice(["", "e%d" % j])
+            return {"c": c, "msgs": [{"t": "P", "name": name, "sql": sql, "types": []}, {"t": "B", "portal": "", "name": name, "fmts": [], "params": [None] if rng.random() < 0.3 else [], "rfmts": []},
+                                     {"t": "E", "portal": "", "max": 0}, {"t": "S"}], "until": "Z", "count": 1, "timeout": 4000}
+        if in_txn:
+            ex.append({"c": "c", "msgs": [{"t": "Q", "sql": "BEGIN"}], "until": "Z", "count": 1, "timeout": 4000})
+        for r in range(rng.randint(1, 2)):
+            err = rng.random() < 0.65
+            bad = bad_frame(err)
+            rows = [f for f in make_reply() if f[0] in "TD"][:6]
+            pos = rng.choice(["only", "start", "mid"])
+            if err:
+                body = [bad] if pos != "mid" else rows + [bad]
+            else:
+                body = [bad, ("C", b"DO\0")] if pos == "only" else [bad] + rows + [("C", b"SELECT 1\0")] if pos == "start" else rows + [bad, ("C", b"SELECT 1\0")]
+            # (extended batches get the mock's own ReadyForQuery status, which follows its BEGIN/ROLLBACK state)
+            ex.append(one("c", body, 10 + 2 * r, (b"E" if err else b"T") if in_txn else b"I"))
+            ex.append(one("c", [("C", b"SELECT 0\0")], 11 + 2 * r, (b"E" if err else b"T") if in_txn else b"I"))
+        if in_txn:
+            ex.append({"c": "c", "msgs": [{"t": "Q", "sql": "ROLLBACK"}], "until": "Z", "count": 1, "timeout": 4000})
+        ex.append(one("c2", make_reply(), 20))
+        ex.append(one("c", make_reply(), 21))
+        ex.append(one("c2", [("C", b"SELECT 0\0")], 22))
+        scns.append({"kind": "cached-nonutf8-%d" % k, "cache": k, "ex": ex, "known": None})
     return scns
 
 
+def clients_of(s):
+    return sorted({e.get("c", "c") for e in s["ex"]})
+
+
 def build(g, s, client_encode):
-    steps = [{"op": "connect", "c": "c", "params": {"user": "u", "database": "db"}, "password": "pw"}]
+    steps = [{"op": "connect", "c": c, "params": {"user": "u", "database": "db"}, "password": "pw"} for c in clients_of(s)]
     for e in s["ex"]:
-        st = {"op": "send", "c": "c", "msgs": e["msgs"]}
+        st = {"op": "send", "c": e.get("c", "c"), "msgs": e["msgs"]}
         b = b"".join(client_encode(m) for m in e["msgs"])
         if g.rng.random() < 0.4:
             c = g.cuts(split_frames(b)[0], 4)
             if c:
                 st["splits"] = c
         steps.append(st)
-        steps.append({"op": "recv", "c": "c", "until": e["until"], "count": e["count"], "timeout_ms": e["timeout"]})
-    steps.append({"op": "recv", "c": "c", "until": "", "count": 0, "timeout_ms": 120, "label": "drain"})
+        steps.append({"op": "recv", "c": e.get("c", "c"), "until": e["until"], "count": e["count"], "timeout_ms": e["timeout"]})
+    for c in clients_of(s):
+        steps.append({"op": "recv", "c": c, "until": "", "count": 0, "timeout_ms": 120, "label": "drain"})
     s["steps"] = steps
     return {"backends": [{"name": "b0"}], "toml": toml(s["cache"]), "hex": True, "log_out": True, "steps": steps}
 
@@ -221,6 +261,10 @@ def match_inband(batch, group, cnames, fallback_stmts=None):
     as it stands BEFORE the batch (updated in message order).  -> (problem | None, answered Parses, answered Closes)"""
     gi, n1, n3 = 0, 0, 0
     body_msgs = group[:-1] if group else []
+
+    def errored():
+        # after an ErrorResponse the backend skips the rest of the batch: its session no longer reflects the messages
+        return any(any(x[0] == "E" for x in split_frames(m["out"])[0]) for m in body_msgs[:gi])
     for f in batch:
         t, body = f
         nxt = body_msgs[gi] if gi < len(body_msgs) else None
@@ -241,7 +285,7 @@ def match_inband(batch, group, cnames, fallback_stmts=None):
                     continue
             # answered by the pooler: legitimate only if the backend session already holds that statement
             st = (nxt or (group[-1] if group else None) or {"stmts": fallback_stmts}).get("stmts")
-            if st is not None and not any(v == (q.decode("latin1"), tuple(struct.unpack(">%di" % ((len(rest) - 2) // 4), rest[2:]))) for v in st.values()):
+            if st is not None and not errored() and not any(v == (q.decode("latin1"), tuple(struct.unpack(">%di" % ((len(rest) - 2) // 4), rest[2:]))) for v in st.values()):
                 return ("Parse %r was answered by the pooler, but the backend session holds no statement with that query" % name, n1, n3)
             n1 += 1
             continue
@@ -264,7 +308,7 @@ def match_inband(batch, group, cnames, fallback_stmts=None):
                 return ("Bind of %r: the forwarded message (%d bytes) is not the client's with only the statement name replaced (expected %d bytes, first difference at byte %d)" % (name, len(nxt["raw"]), len(want), k), n1, n3)
             meant = cnames.get(name)
             has = nxt["stmts"].get(bname.decode())
-            if meant is None or has is None or has[0] != meant[0].decode("latin1"):
+            if not errored() and (meant is None or has is None or has[0] != meant[0].decode("latin1")):
                 return ("Bind of %r was renamed to %r, which in the backend session is %r, the client meant %r" % (name, bname, has, meant and meant[0][:60]), n1, n3)
         elif t == "D" and body[:1] == b"S":
             name = cut(body, 1)[0]
@@ -275,7 +319,7 @@ def match_inband(batch, group, cnames, fallback_stmts=None):
                 return ("Describe of %r: forwarded message is not the client's with only the name replaced" % name, n1, n3)
             meant = cnames.get(name)
             has = nxt["stmts"].get(bname.decode())
-            if meant is None or has is None or has[0] != meant[0].decode("latin1"):
+            if not errored() and (meant is None or has is None or has[0] != meant[0].decode("latin1")):
                 return ("Describe of %r was renamed to %r = %r in the backend session, the client meant %r" % (name, bname, has, meant and meant[0][:60]), n1, n3)
         else:
             if nxt["raw"] != enc(f):
@@ -340,18 +384,24 @@ def analyse(s, res, strict_order=False):
     if res.get("harness_error") or res.get("start_error"):
         return ("harness: %s" % (res.get("harness_error") or res.get("start_error")), None)
     ev = res["events"]
-    sent = [e for e in ev if e.get("who") == "c" and e.get("ev") == "sent"]
-    recv = [e for e in ev if e.get("who") == "c" and e.get("ev") == "recv"]
-    if len(sent) != len(s["ex"]) or len(recv) != len(s["ex"]) + 1:
+    cl = clients_of(s)
+    sent = [e for e in ev if e.get("who") in cl and e.get("ev") == "sent"]
+    recv = [e for e in ev if e.get("who") in cl and e.get("ev") == "recv"]
+    if len(sent) != len(s["ex"]) or len(recv) != len(s["ex"]) + len(cl):
         return ("harness: %d sends / %d recvs for %d exchanges" % (len(sent), len(recv), len(s["ex"])), None)
     bms = backend_stream(ev)
-    cnames = {}
+    per_client_names = {c: {} for c in cl}
     client_queries = set()
     stats = {"batches": 0, "answered_parse": 0, "answered_close": 0, "oob": 0, "renamed": 0, "all_answered": 0, "reordered": 0, "inband": []}
     for i, e in enumerate(s["ex"]):
+        cnames = per_client_names[e.get("c", "c")]                 # statement names are per client
         lo = recv[i - 1]["seq"] if i > 0 else 0
         hi = recv[i]["seq"]
         mine = [m for m in bms if lo <= m["seq"] < hi]
+        # pgcat's own parameter synchronisation at checkout (another client changed a tracked parameter through a
+        # ParameterStatus the backend sent): `SET k TO 'v';...` as a simple Query, its reply is consumed by pgcat (C12)
+        own_sql = {f[1] for f in split_frames(bytes.fromhex(sent[i]["hex"]))[0] if f[0] == "Q"}
+        mine = [m for m in mine if not (m["tag"] == "Q" and m["raw"][5:9] == b"SET " and m["raw"][5:] not in own_sql)]
         groups, rest = groups_of(mine)
         if rest:
             return ("exchange %d: the server received %s without a Sync" % (i, "".join(m["tag"] for m in rest)), stats)
@@ -443,8 +493,9 @@ def analyse(s, res, strict_order=False):
         if gi != len(groups):
             extra = groups[gi]
             return ("exchange %d: the server received a group of messages (%s) that belongs to no client batch and is not a pooler exchange" % (i, "".join(m["tag"] for m in extra)), stats)
-    if recv[-1].get("raw"):
-        return ("the client received %d more bytes after its last ReadyForQuery" % (len(recv[-1]["raw"]) // 2), stats)
+    for r in recv[len(s["ex"]):]:
+        if r.get("raw"):
+            return ("client %s received %d more bytes after its last ReadyForQuery" % (r["who"], len(r["raw"]) // 2), stats)
     return (None, stats)
 
 
@@ -475,11 +526,32 @@ def mutants(res):
         raw[-1] ^= 1
         e["detail"]["raw"] = bytes(raw).hex()
         out.append(("a Bind with its last byte changed", r))
-    rc = [k for k, e in enumerate(ev) if e.get("who") == "c" and e.get("ev") == "recv" and e.get("raw")]
+    rc = [k for k, e in enumerate(ev) if e.get("who") in ("c", "c2") and e.get("ev") == "recv" and e.get("raw")]
     if rc:
         r = copy.deepcopy(res)
         e = r["events"][rc[-1]]
         fs, _ = split_frames(bytes.fromhex(e["raw"]))
         e["raw"] = (b"".join(enc(f) for f in fs[:-1]) + enc(("1", b"")) + enc(fs[-1])).hex()
         out.append(("an extra ParseComplete delivered to the client", r))
+    out += shifted(res)
     return out
+
+
+def shifted(res):
+    """the failure an aborted recv() leaves behind: a reply is cut at its ErrorResponse (or, without one, before its last
+    two frames) and the rest is delivered in front of the NEXT reply; every byte still arrives, in order"""
+    ev = res["events"]
+    rc = [k for k, e in enumerate(ev) if e.get("who") in ("c", "c2") and e.get("ev") == "recv"]
+    for a, b in zip(rc, rc[1:]):
+        fs, _ = split_frames(bytes.fromhex(ev[a].get("raw") or ""))
+        if len(fs) < 2 or not ev[b].get("raw"):
+            continue
+        cutat = next((i for i, f in enumerate(fs) if f[0] == "E"), len(fs) - 2)
+        if cutat == 0 and len(fs) == 2 and False:
+            continue
+        r = copy.deepcopy(res)
+        r["events"][a]["raw"] = b"".join(enc(f) for f in fs[:cutat]).hex()
+        r["events"][a]["outcome"] = "closed"
+        r["events"][b]["raw"] = b"".join(enc(f) for f in fs[cutat:]).hex() + ev[b]["raw"]
+        return [("a reply cut at its ErrorResponse, the rest delivered with the next reply", r)]
+    return []
